@@ -53,3 +53,64 @@ fn c11_xor_reader_any_offset() {
     check(b == (0..40u64).map(|j| plain_at(1000 + j)).collect::<Vec<u8>>(), suite, "C11:no_key_is_identity", "offset 1000", &hex(&b[..8]), "plaintext");
     finish(suite, cases);
 }
+
+// ---- C12: AuxPoW sections ---------------------------------------------------------------------------
+fn merkle_branch(rng: &mut Rng, n: usize) -> Vec<u8> {
+    let mut v = compact(n as u64);
+    for _ in 0..n { v.extend(rng.bytes(32)); }
+    v.extend_from_slice(&(rng.next() as u32).to_le_bytes());
+    v
+}
+fn aux_section(rng: &mut Rng, segwit_coinbase: bool, n1: usize, n2: usize) -> Vec<u8> {
+    let mut cb = TxSpec::new(vec![TxIn::coinbase(rng.next() as u32)], vec![TxOut::new(25_0000_0000, p2pkh_script(&[3; 20])), TxOut::new(0, vec![0x6a, 0x24, 0xaa, 0x21, 0xa9, 0xed])]);
+    cb.inputs[0].script_sig = rng.bytes(60);
+    if segwit_coinbase { cb.witness = Some(vec![vec![vec![0u8; 32]]]); }
+    let mut v = cb.ser();
+    v.extend(rng.bytes(32));                       // parent block hash
+    v.extend(merkle_branch(rng, n1)); v.extend(merkle_branch(rng, n2));
+    v.extend(rng.bytes(80));                       // parent header
+    v
+}
+/// C12 (bounded: versions below / at / above the thresholds incl. versions with bit 8 clear; branch lengths 0..=33;
+/// legacy and segwit parent coinbase; all 8 coins): the AuxPoW section is consumed exactly iff required
+#[test]
+fn c12_auxpow_sections() {
+    use crate::blockchain::parser::types::CoinType;
+    let suite = "c12_auxpow_sections";
+    let mut rng = Rng::new(12);
+    let mut cases = 0;
+    let body = vec![
+        TxSpec::new(vec![TxIn::coinbase(1)], vec![TxOut::new(50, p2pkh_script(&[1; 20]))]),
+        TxSpec::new(vec![TxIn::new([5; 32], 1, vec![0x51])], vec![TxOut::new(7, vec![0x51]), TxOut::new(8, p2pkh_script(&[2; 20]))]),
+    ];
+    let coins: Vec<(&str, Option<u32>)> = vec![("namecoin", Some(0x10101)), ("dogecoin", Some(0x620102)), ("bitcoin", None), ("testnet3", None),
+        ("litecoin", None), ("myriadcoin", None), ("unobtanium", None), ("noteblockchain", None)];
+    for (coin, thr) in coins {
+        let ct: CoinType = coin.parse().unwrap();
+        let mut versions: Vec<u32> = vec![1, 2, 0x10100, 0x10101, 0x10102, 0x10201, 0x620101, 0x620102, 0x620103, 0x620202, 0x20000000, 0x7fffffff, 0xffffffff];
+        if let Some(t) = thr { versions.extend([t - 1, t, t + 1]); }
+        for v in versions {
+            let needs = matches!(thr, Some(t) if v >= t);
+            for (sw, n1, n2) in [(false, 0usize, 0usize), (false, 1, 3), (true, 2, 0), (true, 12, 33)] {
+                cases += 1;
+                let mut b = BlockSpec::new([4; 32], 99, body.clone());
+                b.version = v;
+                if needs { b.aux = Some(aux_section(&mut rng, sw, n1, n2)); }
+                let raw = b.ser();
+                let mut padded = raw.clone(); padded.extend_from_slice(&[0xEE; 7]);      // bytes of the next record must stay unread
+                let mut cur = std::io::Cursor::new(&padded[..]);
+                let inp = format!("{} version={:#x} aux={} segwit_cb={} branches=({}, {})", coin, v, needs, sw, n1, n2);
+                let blk = match std::panic::catch_unwind(std::panic::AssertUnwindSafe(|| cur.read_block(raw.len() as u32, &ct))) {
+                    Ok(Ok(x)) => x, Ok(Err(e)) => { fail(suite, "C12:auxpow_section_consumed_exactly", &inp, &format!("Err {}", e), "Ok"); continue; }
+                    Err(_) => { fail(suite, "C12:auxpow_section_consumed_exactly", &inp, "panic", "Ok"); continue; } };
+                check(blk.aux_pow_extension.is_some() == needs, suite, "C12:auxpow_parsed_iff_version_at_or_above_threshold", &inp, &format!("{}", blk.aux_pow_extension.is_some()), &format!("{}", needs));
+                check(cur.position() == raw.len() as u64, suite, "C12:auxpow_section_consumed_exactly", &inp, &format!("consumed {}", cur.position()), &format!("{}", raw.len()));
+                check(blk.header.hash.to_byte_array() == b.hash(), suite, "C01,C12:block_hash_is_sha256d_of_the_80_header_bytes", &inp, &hex(&blk.header.hash.to_byte_array()[..4]), &hex(&b.hash()[..4]));
+                let got: Vec<[u8; 32]> = blk.txs.iter().map(|t| t.hash.to_byte_array()).collect();
+                let want: Vec<[u8; 32]> = body.iter().map(|t| t.txid()).collect();
+                check(got == want, suite, "C12:transaction_list_unaffected_by_the_section", &inp, &format!("{} txs {:?}", got.len(), got.iter().map(|x| hex(&x[..3])).collect::<Vec<_>>()), &format!("{} txs", want.len()));
+            }
+        }
+    }
+    finish(suite, cases);
+}
